@@ -10,6 +10,7 @@ import (
 )
 
 type GenCfg struct {
+	Foreign   bool // ConstantMap constant KI of Go type int (no engine value type: arithmetic on it is a type error)
 	FailVar   bool // failing (unbound) variable e
 	Failing   bool // failing operator g
 	Custom    bool // registered operators f, p
@@ -139,6 +140,9 @@ func (g *gen) leaf(typ string) (*Tree, int64) {
 		return vr([]string{"x", "y", "z"}[g.r.Intn(3)]), 1
 	case "i":
 		if isConst {
+			if g.c.Foreign && g.r.Intn(8) == 0 {
+				return &Tree{K: "c", V: M{"t": "x", "v": "int"}, Kids: []*Tree{}, Name: "KI"}, 3
+			}
 			if g.c.Consts && g.r.Intn(6) == 0 {
 				return named("K", int64(3)), 3
 			}
